@@ -1,10 +1,19 @@
 HOOK_COMMITS = ["7de202d", "7f6c320", "bd5f58f"]
-FIX_COMMITS = ["7a73b90", "307c7cf", "73e9739", "b6ad768", "06a0422", "37593fd", "b26bda1", "ef4414e", "83534a3", "9d32858", "8df6799", "bfa46be", "d5169bc", "e984a30", "8e975df", "0e9fd95"]
+FIX_COMMITS = ["7a73b90", "307c7cf", "73e9739", "b6ad768", "06a0422", "37593fd", "b26bda1", "ef4414e", "83534a3", "9d32858", "8df6799", "bfa46be", "d5169bc", "e984a30", "8e975df", "0e9fd95", "93bc5a2", "0df18c2"]
 
 NOTE_COMMON = ("Trusted: Lean kernel (axioms propext/Classical.choice/Quot.sound only), the hand-written model's "
                "fidelity outside the sampled correspondence, rustc/std and third-party crates as black boxes, the guarded hooks.")
 
 CLAIMS = {
+    "C19": {
+        "level": "Kernel-checked for every ascending list of match positions (any regex engine, text and pattern), every cursor and count: /P lands on the least match "
+                 "start greater than the cursor, else (wrapping) on the least one; ?P mirrors; the landing point is always a match start; with matches present a search "
+                 "always lands, with none nothing moves; a count takes the count-th match in visiting order (cyclically); n follows and N opposes the direction of the "
+                 "last search; the byte-offset-to-grapheme conversion is exact for every text with non-empty graphemes. Every run drives chains of / ? n N with counts "
+                 "through the real editor (-m: cursor, -c: field) and compares the cursors with the property evaluated literally and with the model; the text must not change.",
+        "note": NOTE_COMMON + " The regex engine is an input (match starts); patterns are restricted to the subset on which Python's re and the regex crate agree. 'count = k repetitions' is checked per run, the theorem states the cyclic-index form.",
+        "technique": "Lean 4 proof parametric in the matcher (ordering/rotation of match starts, offset table inversion) + literal-specification oracle and model correspondence through the session hook",
+    },
     "C07": {
         "level": "Kernel-checked for every history of commands, undos and redos, where a command is *any* transformation of the text (the machine is parametric in the "
                  "editor): the two stacks always chain back from the current text; u gives the text before the most recent undoable change (for an insert run: before "
